@@ -80,7 +80,10 @@ pub enum Kind {
     /// exactly these bytes: a well-formed frame whose reserved bit is set (must be ignored, §4.1)
     RBit { what: String, bytes: Vec<u8> },
     RapidReset { count: u32, end_stream: bool },
-    ContFlood { count: u32, frag_len: u32, finish: bool },
+    /// `prelude` > 0: the flood's header block is preceded, on the same connection, by a header block of HEADERS + `prelude`
+    /// CONTINUATION frames on another stream that decodes to a malformed request (stream error): the per-block cap starts
+    /// afresh with every header block, whatever became of the previous one
+    ContFlood { count: u32, frag_len: u32, finish: bool, #[serde(default)] prelude: u32 },
     PingFlood { count: u32, ack: bool },
     SettingsFlood { count: u32, params: Vec<(u16, u32)> },
     EmptyData { count: u32, pad: Option<u8> },
@@ -265,7 +268,7 @@ pub fn build_abuser(ca: &ClientAbuse, h2: &H2Knobs, sibling_len: usize) -> (bool
         Kind::LenMismatch { ty, flags, cls, declared, payload } => s.push(ClientOp::Abuse(AbuseOp::Frame { ty: *ty, flags: *flags, stream: sref_of(*cls, even_high), declared_len: Some(*declared), payload: payload.clone() })),
         Kind::RBit { bytes, .. } => s.push(ClientOp::Abuse(AbuseOp::Raw(bytes.clone()))),
         Kind::RapidReset { count, end_stream } => s.push(ClientOp::Abuse(AbuseOp::RapidReset { count: *count, code: ecode::CANCEL, authority: HOST_A.into(), path: "/rr/".into(), end_stream: *end_stream, rate })),
-        Kind::ContFlood { count, frag_len, finish } => s.push(ClientOp::Abuse(AbuseOp::ContinuationFlood { count: *count, frag_len: *frag_len, finish: *finish, authority: HOST_A.into(), rate })),
+        Kind::ContFlood { count, frag_len, finish, prelude } => s.push(ClientOp::Abuse(AbuseOp::ContinuationFlood { count: *count, frag_len: *frag_len, finish: *finish, authority: HOST_A.into(), rate, prelude: if *prelude > 0 { Some((*prelude, static_block(&malformed_fields(1, 0)))) } else { None } })),
         Kind::PingFlood { count, ack } => s.push(ClientOp::Abuse(AbuseOp::PingFlood { count: *count, ack: *ack, rate })),
         Kind::SettingsFlood { count, params } => s.push(ClientOp::Abuse(AbuseOp::SettingsFlood { count: *count, params: params.clone(), rate })),
         Kind::EmptyData { count, pad } => s.push(ClientOp::Abuse(AbuseOp::EmptyDataFlood { count: *count, pad: *pad, end_stream_last: false, authority: HOST_A.into(), rate })),
